@@ -96,8 +96,13 @@ static double complex cgauss(vt_rng_t *r, double scale)
 static void draw_z0(vt_rng_t *r, const char *cls, int n, double complex *z0)
 {
     if (strcmp(cls, "eq") == 0) {
-	double v = vt_below(r, 3) == 0 ? 50.0 : 20.0 + 130.0 * vt_unit(r);
+	/* the same impedance at every port: 50 ohm, another real value, or
+	 * (every third draw) a complex one */
+	int k = vt_below(r, 3);
+	double complex v = k == 0 ? 50.0 : 20.0 + 130.0 * vt_unit(r);
 
+	if (k == 2)
+	    v += I * (160.0 * vt_unit(r) - 80.0);
 	for (int p = 0; p < n; ++p)
 	    z0[p] = v;
     } else if (strcmp(cls, "uneq") == 0) {
